@@ -177,6 +177,8 @@ func (m *Machine) intercept(fn *ssa.Function, args []Val, caller *frame, site ss
 			}
 			return TupleV{SliceV{A: a, Len: len(bs), Cap: len(bs)}, Iface{}}
 		}
+	case "(*sync.Pool).Get", "(*sync.Pool).Put":
+		return func() Val { return m.syncPoolOp(fn.Name(), args, caller) }
 	case "(*sync.Once).Do":
 		return func() Val { m.unmodelled("sync.Once.Do"); return nil }
 	case "(*github.com/deckarep/golang-set.threadUnsafeSet).Iter":
@@ -1461,4 +1463,51 @@ func (m *Machine) flagParse(fsCell *Cell, argv SliceV) Val {
 		}
 	}
 	return Iface{}
+}
+
+// syncPoolOp models sync.Pool as a LIFO free list attached to the pool's cell
+// (single logical thread; the runtime may also drop items, which only makes Get
+// call New more often). Put stores into the pool, i.e. into shared state.
+func (m *Machine) syncPoolOp(op string, args []Val, caller *frame) Val {
+	p := args[0].(Ptr)
+	if p.C == nil {
+		m.rtPanic("nil *sync.Pool")
+	}
+	if m.syncPools == nil {
+		m.syncPools = map[*Cell][]Val{}
+	}
+	switch op {
+	case "Put":
+		if i, ok := args[1].(Iface); ok && i.T == nil {
+			return nil
+		}
+		if p.C.O != nil {
+			m.noteWrite(p.C.O, "sync.Pool.Put")
+		}
+		m.syncPools[p.C] = append(m.syncPools[p.C], args[1])
+		return nil
+	case "Get":
+		if st := m.syncPools[p.C]; len(st) > 0 {
+			v := st[len(st)-1]
+			m.syncPools[p.C] = st[:len(st)-1]
+			return v
+		}
+		// call the New field when set
+		sv, ok := p.C.V.(*StructV)
+		if ok {
+			if pt, ok := m.prog.pkgs["sync"].Members["Pool"].(*ssa.Type); ok {
+				if st, ok := pt.Type().Underlying().(*types.Struct); ok {
+					for i := 0; i < st.NumFields(); i++ {
+						if st.Field(i).Name() == "New" {
+							if cl, ok := sv.F[i].V.(*Closure); ok && cl != nil {
+								return m.callValue(cl, nil, caller, nil)
+							}
+						}
+					}
+				}
+			}
+		}
+		return Iface{}
+	}
+	return nil
 }
